@@ -148,7 +148,9 @@ func (e *ReduceExpr) Eval(ctx context.Context, local Scope) (_ Value, err error)
 		if err != nil {
 			return nil, WrapContextErr(err, e, local)
 		}
-		for i := s.Enumerator(); i.MoveNext(); {
+		// Reduce in canonical order: floating-point accumulation (sum, mean) is not
+		// associative, so hash order would leak into the result.
+		for i := OrderedValueEnumerator(s.Enumerator(), ValueLess); i.MoveNext(); {
 			f, err := e.f.Eval(ctx, local)
 			if err != nil {
 				return nil, WrapContextErr(err, e, local)
